@@ -318,3 +318,105 @@ Proof.
   intros H. inversion H; subst. unfold proj_realm. simpl.
   exact (filterSchemasX_proj link G (xr_schemas r) ss E).
 Qed.
+
+(** ** the call succeeds when every glob is answered for every name ([chains_ok]) *)
+Lemma filterM_total {A} (f : A -> eres bool) : (forall x, exists b, f x = EOk b) ->
+  forall l, exists l', filterM f l = EOk l'.
+Proof.
+  intros Hf. induction l as [|x l [l' IH]]; [exists []; reflexivity|].
+  destruct (Hf x) as [b Hb]. simpl. rewrite Hb, IH. eexists; reflexivity.
+Qed.
+
+Lemma filter_names_total ty g l : total_glob (glob_of g) -> exists l', filter_names ty g l = EOk l'.
+Proof.
+  intros H. unfold filter_names. rewrite excludeType_eq. destruct (admits ty g); [|eexists; reflexivity].
+  apply filterM_total. intros n. exists (gmb (glob_of g) n). apply gmatch_total. exact H.
+Qed.
+
+Lemma excludeObjects_total all g0 gtl : total_glob (glob_of g0) -> exists l', excludeObjects all (g0 :: gtl) = EOk l'.
+Proof.
+  intros H. unfold excludeObjects. apply filterM_total. intros o.
+  destruct (o_spec o) as [[t n]|]; [|eexists; reflexivity].
+  rewrite excludeType_eq. destruct (admits t g0); [|eexists; reflexivity].
+  rewrite (gmatch_total _ n H). eexists; reflexivity.
+Qed.
+
+Lemma excludeTX_total link t g : total_glob (glob_of g) -> exists t', excludeTX link t g = EOk t'.
+Proof.
+  intros H. unfold excludeTX. rewrite (excludeT_ok link (xt_t t) g H).
+  destruct (filter_names_total typeTg g (xt_trigs t) H) as [l' E]. rewrite E. eexists; reflexivity.
+Qed.
+
+Lemma excludeV_total v g : total_glob (glob_of g) -> exists v', excludeV v g = EOk v'.
+Proof.
+  intros H. unfold excludeV.
+  destruct (filter_names_total typeC g (v_cols v) H) as [c E1]. rewrite E1.
+  destruct (filter_names_total typeTg g (v_trigs v) H) as [t E2]. rewrite E2. eexists; reflexivity.
+Qed.
+
+Lemma loopX_total {A} (name : A -> str) (child : A -> bytes -> eres A) p gtl :
+  total_glob p -> (forall x g1, hd_error gtl = Some g1 -> exists x', child x g1 = EOk x') ->
+  forall l, exists l', loopX name child p gtl l = EOk l'.
+Proof.
+  intros Hp Hc. induction l as [|x l [l' IH]]; [exists []; reflexivity|].
+  cbn [loopX]. rewrite (gmatch_total p (name x) Hp). rewrite IH.
+  destruct (gmb p (name x)); [|eexists; reflexivity].
+  destruct gtl as [|g1 gtl']; [eexists; reflexivity|].
+  destruct (Hc x g1 eq_refl) as [x' E]. rewrite E. eexists; reflexivity.
+Qed.
+
+Lemma excludeSX_total link s g1 gtl : total_glob (glob_of g1) -> Forall (fun v => total_glob (glob_of v)) gtl ->
+  exists s', excludeSX link s (g1 :: gtl) = EOk s'.
+Proof.
+  intros H1 Htl. unfold excludeSX.
+  destruct (excludeObjects_total (xs_objects s) g1 gtl H1) as [o E]. rewrite E. rewrite !excludeType_eq.
+  assert (Hhd : forall g, hd_error gtl = Some g -> total_glob (glob_of g)).
+  { intros g Hg. destruct gtl as [|g' ?]; [discriminate|]. inversion Hg; subst. inversion Htl; assumption. }
+  assert (ET : exists tabs, (if admits typeT g1 then loopX (fun t => t_name (xt_t t)) (excludeTX link) (glob_of g1) gtl (xs_tables s)
+                             else EOk (xs_tables s)) = EOk tabs).
+  { destruct (admits typeT g1); [|eexists; reflexivity].
+    apply loopX_total; [exact H1|]. intros x g Hg. apply excludeTX_total. exact (Hhd g Hg). }
+  destruct ET as [tabs ET]. rewrite ET.
+  assert (EV : exists vs, (if admits typeV g1 then loopX v_name excludeV (glob_of g1) gtl (xs_views s) else EOk (xs_views s)) = EOk vs).
+  { destruct (admits typeV g1); [|eexists; reflexivity].
+    apply loopX_total; [exact H1|]. intros x g Hg. apply excludeV_total. exact (Hhd g Hg). }
+  destruct EV as [vs EV]. rewrite EV.
+  destruct (filter_names_total typeFn g1 (xs_funcs s) H1) as [fs EF]. rewrite EF.
+  destruct (filter_names_total typePr g1 (xs_procs s) H1) as [ps EP]. rewrite EP. eexists; reflexivity.
+Qed.
+
+Lemma applyGlobsX_total link : forall G, chains_ok G -> forall s, exists o, applyGlobsX link s G = EOk o.
+Proof.
+  induction G as [|g G IH]; intros HG s; [eexists; reflexivity|].
+  inversion HG as [|g' G' (Hne & Hlen & Hall) HG']; subst. simpl.
+  replace (Nat.ltb 3 (length g)) with false by (symmetry; apply Nat.ltb_ge; exact Hlen).
+  destruct g as [|g0 gtl]; [congruence|]. inversion Hall as [|? ? H0 Htl]; subst.
+  rewrite excludeType_eq. destruct (admits typeS g0); [|exact (IH HG' s)].
+  rewrite (gmatch_total _ (xs_name s) H0). destruct (gmb (glob_of g0) (xs_name s)); [|exact (IH HG' s)].
+  destruct gtl as [|g1 gtl']; [eexists; reflexivity|].
+  inversion Htl as [|? ? H1 Htl']; subst.
+  destruct (excludeSX_total link s g1 gtl' H1 Htl') as [s1 E]. rewrite E. exact (IH HG' s1).
+Qed.
+
+Lemma filterSchemasX_total link G : chains_ok G -> forall r, exists r', filterSchemasX link r G = EOk r'.
+Proof.
+  intros HG. induction r as [|s r [r' IH]]; [eexists; reflexivity|].
+  simpl. destruct (applyGlobsX_total link G HG s) as [o E]. rewrite E, IH. eexists; reflexivity.
+Qed.
+
+Lemma realmObjects_total : forall G, chains_ok G -> forall objs, exists o, realmObjects objs G = EOk o.
+Proof.
+  induction G as [|g G IH]; intros HG objs; [eexists; reflexivity|].
+  inversion HG as [|g' G' (Hne & Hlen & Hall) HG']; subst. simpl.
+  destruct g as [|g0 [|g1 gtl]]; [exact (IH HG' objs)| |exact (IH HG' objs)].
+  inversion Hall as [|? ? H0 ?]; subst.
+  destruct (excludeObjects_total objs g0 [] H0) as [o E]. rewrite E. exact (IH HG' o).
+Qed.
+
+Theorem ExcludeRealmX_total link r patterns G :
+  split patterns = EOk G -> chains_ok G -> exists r', ExcludeRealmX link r patterns = EOk r'.
+Proof.
+  intros Hs HG. unfold ExcludeRealmX. destruct patterns as [|p ps]; [eexists; reflexivity|].
+  rewrite Hs. destruct (realmObjects_total G HG (xr_objects r)) as [o E]. rewrite E.
+  destruct (filterSchemasX_total link G HG (xr_schemas r)) as [ss E2]. rewrite E2. eexists; reflexivity.
+Qed.
